@@ -54,6 +54,15 @@ type c17Req struct {
 	Nil   bool      `json:"nil,omitempty"`
 	CErr  int       `json:"cerr,omitempty"`
 	Steps []c17Step `json:"steps"`
+	c17Meta
+}
+
+// c17Meta: what else a request says about itself. None of it enters the answer (that depends on the declared length and
+// on the readable bytes only), so the model does not take it as an input: a dependence on it shows as a difference.
+type c17Meta struct {
+	TE     []string `json:"te,omitempty"`     // r.TransferEncoding as net/http's server fills it in (nil: not set)
+	TEHdr  bool     `json:"te_hdr,omitempty"` // a hand-made request: the Transfer-Encoding header is set as well
+	Method string   `json:"method,omitempty"` // "" = POST
 }
 
 type c17In struct {
@@ -65,6 +74,7 @@ type c17In struct {
 	Ops   []c17Op   `json:"ops"`
 	Shape string    `json:"shape,omitempty"` // how the generator chunked the body (for the report only)
 	B     *c17Req   `json:"b,omitempty"`     // pair cases: the second request
+	c17Meta
 }
 
 type c17Out struct {
@@ -185,7 +195,7 @@ func init() {
 func (c17) ID() string        { return "C17" }
 func (c17) CoqModule() string { return "Check_C17" }
 func (c17) Rule() string {
-	return "requests: ContentLength in {-1,0,positive} x Content-Length header absent/0/other x nil or scripted body; bodies 0..~10 KB " +
+	return "requests: ContentLength in {-1,0,positive} x Content-Length header absent/0/other x nil or scripted body x TransferEncoding not set / chunked / identity / gzip,chunked / empty (about half of the generated requests, also as a header) x method; bodies 0..~10 KB " +
 		"(sizes around the 4096-byte buffer), chunked 1-byte / random / buffer-boundary / single, with zero-length reads (runs up to 101), " +
 		"terminal EOF separate, data+EOF, none, or a scripted error after any byte (data+error or separate); histories of 1..14 calls of " +
 		"HasBody, Read k (k in 0,1,small,4095,4096,4097,large) and Close in any order incl. probes after reads, reads after close, double close; " +
@@ -300,6 +310,27 @@ func (c17) Enumerate(tier string) []any {
 				out = append(out, c17In{CL: []int64{-1, 0}[(ai+hi)%2], Steps: sa, CErr: []int{0, 0, 2}[(ai+bi+hi)%3],
 					B: &c17Req{CL: []int64{-1, 0}[(bi+hi/2)%2], Steps: sb}, Ops: pops(h), Shape: "pair-enum"})
 			}
+		}
+	}
+	// what else the request says about itself: TransferEncoding {nil, chunked, identity, gzip+chunked, empty} x method x
+	// length settings x {empty body, body with bytes, failing before the first byte, nil body} x histories with repeated
+	// probes. The answer depends on the declared length and the readable bytes only.
+	metas := []c17Meta{{}, {TE: []string{"chunked"}}, {TE: []string{"chunked"}, TEHdr: true}, {TE: []string{"identity"}}, {TE: []string{"gzip", "chunked"}},
+		{TE: []string{}}, {Method: "GET"}, {Method: "GET", TE: []string{"chunked"}}, {Method: "DELETE"}, {Method: "PUT", TE: []string{"chunked"}}}
+	type lenSet struct {
+		cl  int64
+		hdr string
+	}
+	mbodies := [][]c17Step{{{T: 1}}, nil, {{C: "x", T: 1}}, {{C: "hello"}, {T: 1}}, {{T: 2}}, {{}, {T: 1}}}
+	mn := 0
+	for _, m := range metas {
+		for _, ls := range []lenSet{{-1, ""}, {0, ""}, {0, "0"}, {5, "5"}, {-1, "5"}} {
+			for _, steps := range mbodies {
+				h := []string{"h h r4 r4 c", "h r0 h r100 r1 c r0", "r1 h h c"}[mn%3]
+				out = append(out, c17In{CL: ls.cl, Hdr: Bs(ls.hdr), Steps: steps, Ops: ops(h), Shape: "meta", c17Meta: m})
+				mn++
+			}
+			out = append(out, c17In{CL: ls.cl, Hdr: Bs(ls.hdr), Nil: true, Ops: ops("h h c r1"), Shape: "nil", c17Meta: m})
 		}
 	}
 	// nil body and the length fast paths
@@ -429,7 +460,24 @@ func c17GenRequest(r *rand.Rand, tier string, salt int) c17In {
 		steps = append(steps, c17Step{C: "ghost"})
 	}
 	in.Steps, in.Shape = steps, shape
+	in.c17Meta = c17GenMeta(r)
 	return in
+}
+
+var c17TEs = [][]string{{"chunked"}, {"chunked"}, {"identity"}, {"gzip", "chunked"}, {"chunked", "gzip"}, {}, {"Chunked"}, {"deflate"}}
+
+// c17GenMeta: about half of the requests say nothing more about themselves (as before); the others carry a
+// TransferEncoding as a server-side request does (mostly chunked), some a method that usually has no body.
+func c17GenMeta(r *rand.Rand) c17Meta {
+	var m c17Meta
+	if r.Intn(2) == 0 {
+		m.TE = c17TEs[r.Intn(len(c17TEs))]
+		m.TEHdr = r.Intn(4) == 0
+	}
+	if r.Intn(4) == 0 {
+		m.Method = []string{"GET", "PUT", "PATCH", "DELETE", "HEAD", "OPTIONS"}[r.Intn(6)]
+	}
+	return m
 }
 
 func (c17) Gen(r *rand.Rand, tier string, i int) any {
@@ -483,7 +531,7 @@ func c17GenPair(r *rand.Rand, tier string) c17In {
 		in.CL, in.Hdr, in.Nil = []int64{-1, 0}[r.Intn(2)], "", false
 		b.CL, b.Hdr, b.Nil = []int64{-1, 0}[r.Intn(2)], "", false
 	}
-	in.B = &c17Req{CL: b.CL, Hdr: b.Hdr, Nil: b.Nil, CErr: b.CErr, Steps: b.Steps}
+	in.B = &c17Req{CL: b.CL, Hdr: b.Hdr, Nil: b.Nil, CErr: b.CErr, Steps: b.Steps, c17Meta: b.c17Meta}
 	in.Shape = "pair:" + in.Shape + "+" + b.Shape
 	op := func(k string, req int) c17Op {
 		o := c17Op{K: k, R: req}
@@ -551,8 +599,17 @@ func (c17) Run(inAny any) any {
 	return obs
 }
 
-func c17NewRequest(cl int64, hdr Bs, isNil bool, cerr int, steps []c17Step) (*http.Request, *c17Stream) {
+func c17NewRequest(cl int64, hdr Bs, isNil bool, cerr int, steps []c17Step, m c17Meta) (*http.Request, *c17Stream) {
 	req := &http.Request{Method: "POST", Header: http.Header{}, ContentLength: cl}
+	if m.Method != "" {
+		req.Method = m.Method
+	}
+	if m.TE != nil {
+		req.TransferEncoding = append([]string{}, m.TE...)
+		if m.TEHdr && len(m.TE) > 0 {
+			req.Header.Set("Transfer-Encoding", strings.Join(m.TE, ", "))
+		}
+	}
 	if hdr != "" {
 		req.Header.Set("Content-Length", string(hdr))
 	}
@@ -571,9 +628,9 @@ func c17RunLocal(in c17In, emit func(c17Out)) c17Obs {
 	obs := c17Obs{}
 	reqs := make([]*http.Request, 1, 2)
 	streams := make([]*c17Stream, 1, 2)
-	reqs[0], streams[0] = c17NewRequest(in.CL, in.Hdr, in.Nil, in.CErr, in.Steps)
+	reqs[0], streams[0] = c17NewRequest(in.CL, in.Hdr, in.Nil, in.CErr, in.Steps, in.c17Meta)
 	if in.B != nil {
-		rb, sb := c17NewRequest(in.B.CL, in.B.Hdr, in.B.Nil, in.B.CErr, in.B.Steps)
+		rb, sb := c17NewRequest(in.B.CL, in.B.Hdr, in.B.Nil, in.B.CErr, in.B.Steps, in.B.c17Meta)
 		reqs, streams = append(reqs, rb), append(streams, sb)
 	}
 	for _, op := range in.Ops {
@@ -885,7 +942,7 @@ func (c17) Category(inAny any, obsAny any) (string, bool) {
 		length = "zero"
 	}
 	if in.Nil {
-		return "nil-body/len=" + length, false
+		return "nil-body/len=" + length + c17MetaLabel(in.c17Meta), false
 	}
 	size, term := 0, "runs-out"
 	for _, s := range in.Steps {
@@ -967,11 +1024,30 @@ func (c17) Category(inAny any, obsAny any) (string, bool) {
 	if !probing {
 		shape, term = "-", "-" // the stream is not looked at
 	}
-	cat := fmt.Sprintf("len=%s/body%s/%s/term=%s/%s", length, sz, shape, term, hs)
+	cat := fmt.Sprintf("len=%s/body%s/%s/term=%s/%s", length, sz, shape, term, hs) + c17MetaLabel(in.c17Meta)
 	return cat, probing && probes > 0 && (readsAfter > 0 || closes > 0)
 }
 
 // c17PairCategory: which of the cross-request situations the history contains.
+func c17MetaLabel(m c17Meta) string {
+	l := ""
+	switch {
+	case m.TE == nil:
+	case len(m.TE) > 0 && m.TE[0] == "chunked":
+		l += "/te=chunked"
+	case len(m.TE) > 0 && strings.EqualFold(m.TE[len(m.TE)-1], "chunked"):
+		l += "/te=..chunked"
+	default:
+		l += "/te=other"
+	}
+	switch m.Method {
+	case "", "POST", "PUT", "PATCH":
+	default:
+		l += "/bodyless-method"
+	}
+	return l
+}
+
 func c17PairCategory(in c17In, obs c17Obs) (string, bool) {
 	probingOf := func(cl int64, hdr Bs, isNil bool) bool { return cl <= 0 && hdr == "" && !isNil }
 	probing := []bool{probingOf(in.CL, in.Hdr, in.Nil), probingOf(in.B.CL, in.B.Hdr, in.B.Nil)}
